@@ -85,7 +85,8 @@ pub fn exec(h: &History) -> ExecOut {
 fn run_history(w: &mut W, h: History) {
     let fam = h.family;
     let hh = h.clone();
-    let handle = std::thread::Builder::new().stack_size(2 << 20).spawn(move || exec(&hh)).expect("spawn");
+    // 2 MiB decides the property; sanitizer builds (inflated frames) pass --stack-mb and never decide stack depth
+    let handle = std::thread::Builder::new().stack_size(w.stack_mb << 20).spawn(move || exec(&hh)).expect("spawn");
     let out = match handle.join() {
         Ok(o) => o,
         Err(_) => {
@@ -139,5 +140,36 @@ pub fn run(w: &mut W) {
         let mut rng = w.begin_case(idx, "history");
         let h = hostile_history(&mut rng, &w.pools, &w.corpus);
         run_history(w, h);
+    }
+}
+
+
+/// M-ub under an interpreter (Miri): tiny hostile histories through the whole pipeline, no
+/// threads, no corpus. Any Miri diagnostic aborts the process and is seen by the supervisor.
+pub fn run_small(w: &mut W) {
+    for idx in w.indices() {
+        let mut rng = w.begin_case(idx, "small-history");
+        let mut h = crate::gen_host::Hostile::new();
+        h.small = true;
+        let n = 2 + rng.usize(3);
+        let ops: Vec<(usize, Vec<u8>)> = (0..n).map(|_| (0usize, h.packet(&mut rng, &w.pools))).collect();
+        let hist = History { family: "small", parsers: vec![super::common::Allowed::gen(&mut rng)], ops };
+        let out = exec(&hist);
+        w.rep.count("calls", out.calls);
+        w.rep.count("bytes", out.bytes);
+        for (k, v) in &out.kinds {
+            w.rep.count(&format!("elements.{}", k), *v);
+        }
+        w.rep.count("pipeline.exports_ok", out.ps.exports_ok);
+        w.rep.count("pipeline.json_bytes", out.ps.json_bytes);
+        if out.nonempty {
+            w.rep.shape(&out.shape);
+        } else {
+            w.rep.trivial += 1;
+        }
+        if let Some((loc, msg, stage)) = &out.panic {
+            let d = div(stage, "panic", format!("{} {}", loc, msg));
+            w.rep.violation(format!("C01|panic|{}|{}|{}", stage, loc, crate::util::msg_class(msg)), &d, out.sut_replay.clone());
+        }
     }
 }
